@@ -5,8 +5,8 @@
     compatible decidable total order, every degree and size.
 
     Model: [ip_integrals] is _build_integrals as written (general branch: degree-raised basis on the knots
-    extended by one at both ends, max/min with the domain, sum(values[min_idx:]); periodic mirroring
-    integrals[n+i] = integrals[d-i-1]; uniform-cubic branch with its three hard-coded edge values written at
+    extended by one at both ends, max/min with the domain, sum(values[min_idx:]), for ALL ncells + d unwrapped
+    pieces - repair 38b0bf4, the pinned tree mirrored the last d; uniform-cubic branch with its three hard-coded edge values written at
     i and -i-1); [ip_quad_from ... I] is get_quadrature_coefficients for the integrals I (transposed solve;
     periodic folding basis_quads[:p] += integrals[n:] = [ip_quad_rhs]); [ip_quadrature] composes them.
 
@@ -18,8 +18,12 @@
     - all weights equal dx on EVERY uniform periodic space: proved in certificate form
       ([c09_weights_equal_cert]: column sums, folded integrals and inverse are checked per instance).
 
-    REFUTED by the faithful model (and by the code, defects 6 and 7 of DESIGN section 9):
-    [c09_quadrature_periodic_nonuniform_refuted], [c09_integrals_cubic_clamped_small_refuted]. *)
+    - the weights of a periodic space sum to the period for ALL spaces (needs the integral formula): checked
+      exactly on the model for every tested space; [c09_quadrature_periodic_nonuniform_ok] is the instance that
+      failed on the pinned tree (defect 6, repaired by 38b0bf4).
+
+    REFUTED by the faithful model (and by the code, defect 7 of DESIGN section 9):
+    [c09_integrals_cubic_clamped_small_refuted]. *)
 From Coq Require Import List Arith Lia ZArith Bool QArith Qcanon.
 Import ListNotations.
 From PGV Require Import BasisCoxDeBoor CoxDeBoorGen FindSpan CubicUniform CollocRow Sums SplineModel SplineTheory SplineQc InterpModel InterpTheory InterpQc.
@@ -89,8 +93,7 @@ Theorem c09_rows_sum_one_cubic :
   forall (knots : list F) (degree : nat) (periodic : bool) (xs : list F) (A : list (list F)),
   let nb := ip_nbasis F K knots degree periodic true in
   ip_colloc F K nb knots degree periodic true xs = SpOk A ->
-  length xs = nb ->
-  degree = 3%nat -> (periodic = true -> (degree + 1 <= nb)%nat) -> ip_rows_sum_one F K nb A.
+  length xs = nb -> degree = 3%nat -> ip_rows_sum_one F K nb A.
 Proof. exact (@ip_rows_sum_one_cubic). Qed.
 Print Assumptions c09_rows_sum_one_cubic.
 
@@ -110,7 +113,7 @@ Theorem c09_rows_sum_one_nu :
   (i < nb)%nat ->
   sp_le K (sp_kn F K knots degree) (nth i xs (sp0 K)) /\
   sp_le K (nth i xs (sp0 K)) (sp_kn F K knots (length knots - 1 - degree))) ->
-  (periodic = true -> (degree + 1 <= nb)%nat) -> ip_rows_sum_one F K nb A.
+  ip_rows_sum_one F K nb A.
 Proof. exact (@ip_rows_sum_one_nu). Qed.
 Print Assumptions c09_rows_sum_one_nu.
 
@@ -130,22 +133,21 @@ Theorem c09_weights_equal_cert :
 Proof. exact (@ip_weights_equal_cert). Qed.
 Print Assumptions c09_weights_equal_cert.
 
-(** REFUTATION (defect 6): periodic degree 1 on breakpoints 0, 1, 3: weights (1, 3/2) sum to 5/2, the period is 3; the mirrored integral integrals[2] = 1/2 should be 1 *)
-Theorem c09_quadrature_periodic_nonuniform_refuted :
+(** periodic NON-UNIFORM instance on Qc (degree 1, breakpoints 0, 1, 3; failed on the pinned tree, defect 6): integrals (1/2, 3/2, 1), weights (3/2, 3/2) sum to the period 3 *)
+Theorem c09_quadrature_periodic_nonuniform_ok :
   ip_space_ok Qc spq_ops ipq_w6_knots 1 true false = true /\
-  (1 + 1 <= ip_nbasis Qc spq_ops ipq_w6_knots 1 true false)%nat /\
   match ip_quadrature Qc spq_ops ipq_w6_knots 1 true false ipq_w6_xs with
   | SpOk w =>
-  map spq_show w = [(1, 1%positive); (3, 2%positive)] /\ spq_show (ipq_total w) = (5, 2%positive)
+  map spq_show w = [(3, 2%positive); (3, 2%positive)] /\ spq_show (ipq_total w) = (3, 1%positive)
   | _ => False
   end /\
   spq_show (nth 3 ipq_w6_knots (Q2Qc 0) - nth 1 ipq_w6_knots (Q2Qc 0)) = (3, 1%positive) /\
   match ip_integrals Qc spq_ops ipq_w6_knots 1 true false with
-  | SpOk ints => map spq_show ints = [(1, 2%positive); (3, 2%positive); (1, 2%positive)]
+  | SpOk ints => map spq_show ints = [(1, 2%positive); (3, 2%positive); (1, 1%positive)]
   | _ => False
   end.
-Proof. exact (@ipq_quadrature_periodic_nonuniform_refuted). Qed.
-Print Assumptions c09_quadrature_periodic_nonuniform_refuted.
+Proof. exact (@ipq_quadrature_periodic_nonuniform_ok). Qed.
+Print Assumptions c09_quadrature_periodic_nonuniform_ok.
 
 (** REFUTATION (defect 7): uniform-cubic clamped spaces with 1 and 2 cells: the stored integrals sum to 2 and 49/24 on domains of length 1 and 2 (3 cells: correct) *)
 Theorem c09_integrals_cubic_clamped_small_refuted :
